@@ -106,7 +106,11 @@ func genC05(t *rapid.T) c05Case {
 		m := mutation{Kind: k, Pos: rapid.IntRange(0, 1<<20).Draw(t, "mp")}
 		switch k {
 		case "byte", "insert":
-			m.Val = int64(rapid.SampledFrom([]int{0, 1, 2, 3, 4, 6, 8, 10, 11, 12, 13, 14, 15, 16, 17, 0x7f, 0x80, 0xff}).Draw(t, "mv"))
+			if rapid.IntRange(0, 4).Draw(t, "anybyte") == 0 {
+				m.Val = int64(rapid.IntRange(0, 255).Draw(t, "mvany"))
+			} else {
+				m.Val = int64(rapid.SampledFrom(hostileTypeCodes).Draw(t, "mv"))
+			}
 		case "len":
 			m.Val = int64(rapid.IntRange(0, len(lenVals)-1).Draw(t, "mv"))
 		case "random":
@@ -116,6 +120,16 @@ func genC05(t *rapid.T) c05Case {
 	}
 	return c
 }
+
+var hostileTypeCodes = []byte{0, 1, 2, 3, 4, 5, 6, 7, 8, 9, 10, 11, 12, 13, 14, 15, 16, 17, 0x7f, 0x80, 0x81, 0xf0, 0xfd, 0xfe, 0xff}
+
+var allBytes = func() []byte {
+	b := make([]byte, 256)
+	for i := range b {
+		b[i] = byte(i)
+	}
+	return b
+}()
 
 var lenVals = []string{"-1", "min", "max", "2^30", "2^24", "remaining", "remaining+1", "remaining/min+1", "0", "65536", "256"}
 
@@ -433,8 +447,14 @@ func (r *c05Runner) run(c c05Case) *Failure {
 			}
 		}
 	}
-	for _, off := range types {
-		for _, code := range []byte{0, 1, 2, 3, 4, 6, 8, 10, 11, 12, 13, 14, 15, 16, 0xff} {
+	for ti, off := range types {
+		// every byte value at the first type-code positions (an implementation may know codes of its
+		// own beyond Thrift's, such as a pseudo type for enums), the usual suspects at the others
+		codes := hostileTypeCodes
+		if ti < 3 {
+			codes = allBytes
+		}
+		for _, code := range codes {
 			if c.Base[off] == code {
 				continue
 			}
